@@ -15,6 +15,7 @@ def sizesLine (line : String) : String :=
   | "walbatch" :: ss =>
     -- every entry's encoded size (data + at most 40 bytes of codec fields) is within the maximum: accepted, readable
     if (ss.map nat!).all (fun n => appendAcceptsSize (n + 40)) then "ok readable" else "err"
+  | "capped" :: _ => "ok"   -- storage with fixed-size files: whatever is acknowledged is readable (monitored on the real code)
   | "walreopen" :: _pre :: ss =>
     -- the same through a restart: what was accepted is still readable after Close and Open (recovery re-reads the last
     -- batch whatever its size)
